@@ -3,7 +3,7 @@
 // values or non-minimal encodings, zlib bodies truncated / extended / corrupted / re-claimed), runs of
 // empty frames, strict prefixes and random bytes; both directions, thresholds -1..2^20.
 // Oracle (independent compress/zlib calls): for every compressed-looking frame body the full inflation
-// (all output bytes, ended cleanly?, consumed all input?) and whether ReadFull(claimed)+Close stays silent.
+// (all output bytes, ended cleanly?, consumed all input?).
 package main
 
 import (
@@ -163,19 +163,6 @@ func inflateAll(body []byte) inflated {
 	return inflated{out: out, clean: clean, consumed: br.Len() == 0}
 }
 
-// what decompress() does, on an independent reader: exactly n bytes, then Close
-func lazyOK(body []byte, n int) bool {
-	zr, err := zlib.NewReader(bytes.NewReader(body))
-	if err != nil {
-		return false
-	}
-	buf := make([]byte, n)
-	if _, err := io.ReadFull(zr, buf); err != nil {
-		return false
-	}
-	return zr.Close() == nil
-}
-
 func coqBytes(b []byte) string {
 	if len(b) > 4096 {
 		same := true
@@ -299,9 +286,8 @@ func main() {
 				"bytes": o.maxAlloc, "thr": thr, "serverbound": sb, "stream_hex": fmt.Sprintf("%x", trunc(stream))})
 		}
 		// oracle tables: walk the frames by their announced lengths
-		var it, lt []string
+		var it []string
 		seenI := map[string]bool{}
-		seenL := map[string]bool{}
 		refAccept := 0
 		for pos := 0; pos < len(stream) && thr >= 0; {
 			l, n, ok := readVarint(stream[pos:])
@@ -326,16 +312,11 @@ func main() {
 					out.Tag("oracle:trailing-input-after-stream")
 				}
 			}
-			key := fmt.Sprintf("%d|%s", claimed, zb)
-			if claimed <= len(inf.out) && !seenL[key] {
-				seenL[key] = true
-				lt = append(lt, "("+lib.Bytes(zb)+", "+lib.N(uint64(claimed))+", "+lib.Bool(lazyOK(zb, claimed))+")")
-			}
 			if inf.clean && len(inf.out) == claimed {
 				refAccept++
 			}
 		}
-		term := lib.App("Check.C02.mk", lib.Z(int64(thr)), lib.Bool(sb), lib.Bytes(stream), lib.List(it), lib.List(lt),
+		term := lib.App("Check.C02.mk", lib.Z(int64(thr)), lib.Bool(sb), lib.Bytes(stream), lib.List(it),
 			lib.ListOf(o.payloads, coqBytes), "Check.C01."+o.term)
 		d := "clientbound"
 		if sb {
@@ -383,15 +364,15 @@ func main() {
 	for _, sb := range []bool{true, false} {
 		for _, thr := range []int{0, 64, 256} {
 			cr := rng.Fork()
-			// the two recorded findings, each in isolation
+			// the inputs of the two repaired findings (C02-1, C02-2), each in isolation: must be rejected now
 			neg := fr{hasClaimed: true, claimed: cr.Pick(-1, -5, -1<<31), body: payload(cr.Range(1, max(1, thr)), cr)}
 			if thr == 0 {
 				neg.body = nil
 			}
-			emit(idx, thr, sb, append(neg.bytes(), fr{hasClaimed: true, claimed: 0, body: nil}.bytes()...), "claimed-negative", "finding-1-class")
+			emit(idx, thr, sb, append(neg.bytes(), fr{hasClaimed: true, claimed: 0, body: nil}.bytes()...), "claimed-negative", "fixed-finding-1-class")
 			idx++
 			p := payload(max(thr, 1)+cr.Range(50, 600), cr)
-			emit(idx, thr, sb, fr{hasClaimed: true, claimed: max(thr, 1) + cr.Range(0, 40), body: zl(p, -1)}.bytes(), "body-longer-than-claimed", "finding-2-class")
+			emit(idx, thr, sb, fr{hasClaimed: true, claimed: max(thr, 1) + cr.Range(0, 40), body: zl(p, -1)}.bytes(), "body-longer-than-claimed", "fixed-finding-2-class")
 			idx++
 			// exact-size boundary of uncompressed frames
 			for _, d := range []int{-1, 0, 1} {
@@ -412,9 +393,9 @@ func main() {
 		z := zl(q, 6)
 		bad := append([]byte{}, z...)
 		bad[len(bad)-1] ^= 0x5a
-		emit(idx, 256, sb, fr{hasClaimed: true, claimed: 32768, body: bad}.bytes(), "adler-corrupt-at-window", "finding-2-class")
+		emit(idx, 256, sb, fr{hasClaimed: true, claimed: 32768, body: bad}.bytes(), "adler-corrupt-at-window", "fixed-finding-2-class")
 		idx++
-		emit(idx, 256, sb, fr{hasClaimed: true, claimed: 32768, body: z[:len(z)-cr.Range(1, 5)]}.bytes(), "trailer-cut-at-window", "finding-2-class")
+		emit(idx, 256, sb, fr{hasClaimed: true, claimed: 32768, body: z[:len(z)-cr.Range(1, 5)]}.bytes(), "trailer-cut-at-window", "fixed-finding-2-class")
 		idx++
 		// direction caps: bodies that really inflate to cap-1, cap, cap+1 zero bytes
 		cp := capOf(sb)
